@@ -769,8 +769,92 @@ fn svr<F: Scalar>(pr: &Params) {
     observe(res.rho);
 }
 
+/// Regression through the public parameter API (`c_svr(c, Some(loss))`, `nu_svr(nu, Some(c))`, `eps`, kernels).  The
+/// regression `Fit` impls exist for f32 / f64 only, so the fit is the f64 one; what the solver enumerates here
+/// (`choice`) is the configuration: C, loss epsilon / nu, target vector, kernel, shrinking.
+fn svr_params<F: Scalar>(pr: &Params) {
+    let which = pr.u("which", 0);
+    let cs = [0.5f64, 1.0, 4.0];
+    let losses = [0.0625f64, 0.1, 0.25, 0.5, 1.0];
+    let nus = [0.25f64, 0.5, 0.75];
+    let tables: [[f64; 4]; 6] = [[0., 1., 3., 4.], [0., 2., 1., 5.], [1., -1., 2., -3.], [0., 0., 0., 4.], [3., 1., 4., 1.], [-2., 0.5, 0.75, 6.]];
+    let c = cs[choice("c", cs.len())];
+    let loss = losses[choice("loss", if which == 0 { losses.len() } else { 1 })];
+    let nu = nus[choice("nu", if which == 1 { nus.len() } else { 1 })];
+    let t = tables[choice("targets", tables.len())];
+    let kind = choice("kernel", 2);
+    let shrinking = choice("shrinking", 2) == 1;
+    let xs = [0.0f64, 1.0, 3.0, 4.0];
+    let n = xs.len();
+    let x = Array2::from_shape_fn((n, 1), |(i, _)| xs[i]);
+    let ds = DatasetBase::new(x.clone(), Array1::from(t.to_vec()));
+    let tol_solver = 1e-6;
+    let params = Svm::<f64, f64>::params().eps(tol_solver).shrinking(shrinking);
+    let params = if which == 0 { params.c_svr(c, Some(loss)) } else { params.nu_svr(nu, Some(c)) };
+    let params = if kind == 1 { params.gaussian_kernel(4.0) } else { params.linear_kernel() };
+    let kf = |a: f64, b: f64| if kind == 1 { (-(a - b) * (a - b) / 4.0).exp() } else { a * b };
+    let model = match guarded(|| params.fit(&ds)) {
+        Some(Ok(m)) => m,
+        Some(Err(_)) => {
+            check_bool("svr_params.fit accepts valid parameters", false);
+            return;
+        }
+        None => {
+            check_bool("svr_params.fit does not panic", false);
+            return;
+        }
+    };
+    let tol = 1e-4;
+    check_bool("svr_params.one coefficient per sample", model.alpha.len() == n);
+    if model.alpha.len() != n {
+        return;
+    }
+    let a = &model.alpha;
+    check_bool("svr_params.box: |alpha_i| <= C", a.iter().all(|v| v.abs() <= c + tol));
+    check_bool("svr_params.equality: sum_i alpha_i == 0", a.iter().sum::<f64>().abs() <= tol);
+    let f: Vec<f64> = (0..n).map(|i| (0..n).map(|j| a[j] * kf(xs[j], xs[i])).sum::<f64>() - model.rho).collect();
+    for i in 0..n {
+        let pred: f64 = model.predict(Array1::from_elem(1, xs[i]));
+        check_bool("svr_params.decision value == sum_i alpha_i K(x_i, q) - rho", (pred - f[i]).abs() <= 1e-9 * (1.0 + f[i].abs()));
+    }
+    if which == 0 {
+        for i in 0..n {
+            let r = t[i] - f[i];
+            let free = a[i].abs() > tol && a[i].abs() < c - tol;
+            let ok = if a[i].abs() <= tol {
+                r.abs() <= loss + tol
+            } else if free {
+                (r.abs() - loss).abs() <= tol
+            } else {
+                r.abs() >= loss - tol
+            } && (a[i].abs() <= tol || (a[i] > 0.0) == (r > 0.0));
+            check_bool("svr_params.KKT for the requested loss epsilon: |residual| <= eps (alpha = 0), == eps (free), >= eps (bounded), sign(alpha) = sign(residual)", ok);
+        }
+    } else {
+        check_bool("svr_params.nu constraint: sum_i |alpha_i| <= C nu n", a.iter().map(|v| v.abs()).sum::<f64>() <= c * nu * n as f64 + tol);
+        // the tube is implied: all free vectors share one |residual|, zero coefficients lie inside it, bounded ones outside
+        let free: Vec<f64> = (0..n).filter(|&i| a[i].abs() > tol && a[i].abs() < c - tol).map(|i| (t[i] - f[i]).abs()).collect();
+        if let Some(&e) = free.first() {
+            check_bool("svr_params.nu-SVR: free vectors share one tube width", free.iter().all(|v| (v - e).abs() <= tol));
+            for i in 0..n {
+                let r = (t[i] - f[i]).abs();
+                let ok = if a[i].abs() <= tol { r <= e + tol } else if a[i].abs() >= c - tol { r >= e - tol } else { true };
+                check_bool("svr_params.nu-SVR: zero coefficients inside the tube, bounded ones outside", ok);
+            }
+        }
+    }
+    symx::observe_usize(model.nsupport());
+}
+
 pub fn register(v: &mut Vec<HarnessDef>) {
     harness_sym_or_generic(v);
+    v.push(HarnessDef {
+        name: "c13.svr_params", property: "C13",
+        doc: "epsilon- / nu-regression through the public parameter API on four concrete 1-D points: the solver enumerates (C, loss epsilon or nu, target vector, kernel, shrinking); box, equality, decision value, KKT for the requested epsilon",
+        sym: svr_params::<SymF>, native: None,
+        functions: &["linfa_svm::SvmParams::{c_svr, nu_svr, eps, shrinking, linear_kernel, gaussian_kernel}", "linfa_svm::regression::{fit_epsilon, fit_nu} (f64 Fit impl)", "linfa_svm::Svm::<f64,f64>::predict / weighted_sum"],
+        assumptions: &["x = (0,1,3,4); six target vectors; C in {0.5,1,4}; loss epsilon in {1/16,0.1,0.25,0.5,1}; nu in {0.25,0.5,0.75}; linear and Gaussian(4) kernel; solver tolerance 1e-6, obligations up to 1e-4", "concrete f64 run per configuration (the regression Fit impl is not generic); the solver only enumerates configurations"],
+    });
 }
 
 fn harness_sym_or_generic(v: &mut Vec<HarnessDef>) {
